@@ -707,3 +707,28 @@ def sources_decl(rng, did, p_fallible=0.5):
     ids = [p['id'] for p in provs]
     rng.shuffle(ids)
     return {'id': did, 'injector': 'Init_' + did, 'ret': sink, 'types': types, 'providers': provs, 'layout': ids, 'planted': None}
+
+
+def wide_decl(rng, did, width=10, p_fallible=0.0, sync_root=True):
+    """Wide fan-out: one root (synchronous or Async) consumed by `width` Async providers (a few of them also chained in
+    pairs), all feeding one sink — more goroutine chains than any small declaration has (boundary sizes of the
+    scheduler: chain counts, channel counts, parameter counts)."""
+    types = {'T0': {'form': 'ptr'}}
+    provs = [{'id': 'P0', 'kind': 'fn', 'requires': [], 'provides': [['T0']], 'async': not sync_root, 'fallible': rng.random() < p_fallible,
+              'wrap': 'async-bind', 'struct': ''}]
+    for i in range(1, width + 1):
+        types['T%d' % i] = {'form': rng.choice(['ptr', 'val'])}
+        req = ['T0'] if rng.random() < 0.85 else []
+        if i > 2 and rng.random() < 0.2:
+            req.append('T%d' % rng.randrange(1, i))
+        provs.append({'id': 'P%d' % i, 'kind': 'fn', 'requires': req, 'provides': [['T%d' % i]], 'async': rng.random() < 0.92,
+                      'fallible': rng.random() < p_fallible, 'wrap': 'async-bind', 'struct': ''})
+    n = width + 1
+    types['T%d' % n] = {'form': 'ptr'}
+    req = ['T%d' % i for i in range(1, width + 1)]
+    rng.shuffle(req)
+    provs.append({'id': 'P%d' % n, 'kind': 'fn', 'requires': req, 'provides': [['T%d' % n]], 'async': rng.random() < 0.3,
+                  'fallible': rng.random() < p_fallible, 'wrap': 'async-bind', 'struct': ''})
+    ids = [p['id'] for p in provs]
+    rng.shuffle(ids)
+    return {'id': did, 'injector': 'Init_' + did, 'ret': 'T%d' % n, 'types': types, 'providers': provs, 'layout': ids, 'planted': None}
